@@ -299,7 +299,7 @@ def analyse(text, label):
 
 
 def correspond(ctx):
-    nseeds, rounds = (6, 36) if ctx.tier == "quick" else (24, 120)
+    nseeds, rounds = (4, 36) if ctx.tier == "quick" else (24, 120)
     fails, mism, alltr, total, notes = [], [], [], {}, []
     # fixed corpus first: the deterministic witness of the notify-early defect found on the unchanged tree
     for v in (0, 1):
